@@ -438,6 +438,34 @@ pub fn repeated_matrix(rng: &mut Rng, acts: u32, rounds: u32) -> T {
     go(&m, acts, rounds, 0, 0, 0.0)
 }
 
+/// a hidden first move: one player moves, the other answers without seeing it (one infoset at
+/// several nodes right below the root), and one of the answers leads into a wide decision of the
+/// first player.  With a few threads the frontier walk of the multi-threaded sampled solvers passes
+/// some nodes of the shared infoset itself and leaves others to the tasks or the closing recursion,
+/// and which ones depends on the draws of the pass.
+pub fn hidden_move(rng: &mut Rng) -> T {
+    let first = rng.chance(0.5);
+    let k0 = rng.range(2, 3) as u32;
+    let wide = rng.range(4, 7) as u32;
+    let answers = rng.range(2, 3) as u32;
+    let mut top = Vec::new();
+    for a in 0..k0 {
+        let mut ans = Vec::new();
+        for b in 0..answers {
+            let child = if b == 0 {
+                T::Player(first, 10 + a, (0..wide).map(|c| (c, T::Term(rng.unit() * 4.0 - 2.0))).collect())
+            } else if rng.chance(0.5) {
+                T::Term(rng.unit() * 4.0 - 2.0)
+            } else {
+                T::Player(first, 20 + a * 4 + b, (0..2).map(|c| (c, T::Term(rng.unit() * 4.0 - 2.0))).collect())
+            };
+            ans.push((b, child));
+        }
+        top.push((a, T::Player(!first, 0, ans)));
+    }
+    T::Player(first, 0, top)
+}
+
 /// a lottery in front of a game: one chance outcome ends the game at once (a pass that draws it
 /// moves no regret at all), the other leads to a matrix game whose equilibrium is not uniform
 pub fn lottery(rng: &mut Rng) -> T {
